@@ -114,6 +114,36 @@ func c16Filter(name string, opens int, o *opt.Options) {
 			o.Filter = b(64)
 			o.AltFilters = []filter.Filter{b(10)}
 		}
+	case "exact":
+		o.Filter = harness.ExactFilter{}
+	case "exact-then-none+alt":
+		// the policy is switched off but still named as an alternative: old tables keep using it
+		if opens == 0 {
+			o.Filter = harness.ExactFilter{}
+		} else {
+			o.Filter = nil
+			o.AltFilters = []filter.Filter{harness.ExactFilter{}}
+		}
+	case "exact-then-b10+alt":
+		if opens == 0 {
+			o.Filter = harness.ExactFilter{}
+		} else {
+			o.Filter = b(10)
+			o.AltFilters = []filter.Filter{harness.ExactFilter{Tag: "-unused"}, harness.ExactFilter{}}
+		}
+	case "b10-then-exact+alt":
+		if opens == 0 {
+			o.Filter = b(10)
+		} else {
+			o.Filter = harness.ExactFilter{}
+			o.AltFilters = []filter.Filter{b(10)}
+		}
+	case "exact-then-exact2noalt":
+		if opens == 0 {
+			o.Filter = harness.ExactFilter{}
+		} else {
+			o.Filter = harness.ExactFilter{Tag: "2"}
+		}
 	case "b10-then-b1noalt":
 		// another policy without AltFilters: old tables' filters are simply not used
 		if opens == 0 {
@@ -124,6 +154,9 @@ func c16Filter(name string, opens int, o *opt.Options) {
 	}
 	o.FilterBaseLg = 1
 }
+
+var c16Settings = []string{"none", "bloom1", "bloom10", "bloom64", "b10-then-none", "b10-then-b64alt", "b10-then-b1noalt",
+	"exact", "exact-then-none+alt", "exact-then-b10+alt", "b10-then-exact+alt", "exact-then-exact2noalt"}
 
 func init() {
 	hk := &seqHooks{Setup: func(w *harness.World, t *seqTask) {
@@ -228,12 +261,12 @@ func init() {
 				depth = 5
 			}
 			var specs []seqSpec
-			for _, m := range []string{"none", "bloom1", "bloom10", "bloom64", "b10-then-none", "b10-then-b64alt", "b10-then-b1noalt"} {
+			for _, m := range c16Settings {
 				specs = append(specs, seqSpec{Cfg: "flushy/bytewise", Alpha: c01Alpha, Depth: depth, Checks: "db", Mode: m})
 			}
 			// older versions kept for snapshots live in the same table as newer ones, possibly in
 			// another filter partition: snapshot reads must not depend on the filter either
-			for _, m := range []string{"none", "bloom10", "b10-then-b64alt"} {
+			for _, m := range []string{"none", "bloom10", "b10-then-b64alt", "exact", "exact-then-b10+alt"} {
 				specs = append(specs, seqSpec{Cfg: "flushy/bytewise", Alpha: c03Alpha, Depth: depth + 1, Checks: "db,views", Mode: m})
 			}
 			specs = append(specs, seqSpec{Cfg: "wide/bytewise", Alpha: c01Alpha, Depth: depth, Checks: "db", Mode: "bloom1"},
@@ -253,8 +286,8 @@ func init() {
 			}
 			c.SetExhaustive(exh)
 			c.Coverage["db_layout_classes"] = len(layouts)
-			c.Sample(map[string]any{"bloom_universe": c16Universe[:6], "bits": "1..64", "db_filter_settings": []string{"none", "bloom1", "bloom10", "bloom64", "b10-then-none", "b10-then-b64alt", "b10-then-b1noalt"}})
-			c.Coverage["rule"] = "(1) bits-per-key 1..64 x every subset of a 12-key universe (thorough: + generated sets of 100, 1000, 10^4 keys): every added key must be reported present, also after reusing the generator; (2) every subset of the C13 universe in tables with block size {1,16} x filter base {1,2,4,11} x bits {1,10,64} x raw/internal keys: every exact and >= lookup must find the stored pair; (3) states/transitions: BFS over DB operation sequences (C01 alphabet) under 7 filter settings including tables written with bloom10 and reopened with no filter, another policy + AltFilters, another policy without AltFilters; every read must equal the sorted-map model, hence all settings agree"
+			c.Sample(map[string]any{"bloom_universe": c16Universe[:6], "bits": "1..64", "db_filter_settings": c16Settings})
+			c.Coverage["rule"] = "(1) bits-per-key 1..64 x every subset of a 12-key universe (thorough: + generated sets of 100, 1000, 10^4 keys): every added key must be reported present, also after reusing the generator; (2) every subset of the C13 universe in tables with block size {1,16} x filter base {1,2,4,11} x bits {1,10,64} x raw/internal keys: every exact and >= lookup must find the stored pair; (3) states/transitions: BFS over DB operation sequences (C01 alphabet) under 12 filter settings (bloom with 1/10/64 bits, and an exact-set policy with its own name and no false positives, so that any lookup consulting a filter with a key in the wrong form misses) including tables written under one policy and reopened with no filter, with no filter + the old policy in AltFilters, with another policy + AltFilters, with another policy without AltFilters; every read must equal the sorted-map model, hence all settings agree"
 			c.Assume = []string{"'all key sets up to 10^4' is covered as all subsets of a 12-key universe plus a finite generated family, not all sets"}
 		},
 	})
